@@ -37,7 +37,7 @@ NEG = ["", "-", "\u2212"]  # none, hyphen, minus sign
 SEPS = [",", "\t", ";", " "]
 DECS = [".", ","]
 ORDERS = ["desc", "asc"]
-NUMFMTS = ["repr", "g17", "E15", "e7", "int"]
+NUMFMTS = ["repr", "g17", "E15", "e7", "int", "fix3", "pos4", "fix1"]
 COORDS = ["cart", "polar", "both"]
 COLPERMS = ["canonical", "reversed", "random"]
 CSV_MODES = ["ext:.csv", "ext:.txt", "ext:.CSV", "fmt:csv", "fmt:.CSV", "noext"]
@@ -345,7 +345,21 @@ def fmt_num(x, numfmt):
         if 100.0 <= abs(x) < 1e15:
             return "%d" % round(x)
         return repr(x)
+    if numfmt in ("fix3", "fix1"):
+        # short fixed-point cells as spreadsheets and instruments export them: 1.125, 0.050, -26.556, 12.5
+        if 0.01 <= abs(x) < 1e9:
+            return "%.3f" % x if numfmt == "fix3" else "%.1f" % x if abs(x) >= 1.0 else "%.3f" % x
+        return _positional(x, 6)
+    if numfmt == "pos4":
+        return _positional(x, 4)
     raise ValueError(numfmt)
+
+
+def _positional(x, digits):
+    """x rounded to `digits` significant digits, written without an exponent (0.0001234, 12350000)"""
+    if x == 0.0 or not (1e-12 <= abs(x) < 1e15):
+        return repr(x)
+    return np.format_float_positional(float("%.*g" % (digits, x)), trim="-")
 
 
 def style_name(key, idx, suffix_i, case, rng, unit=None):
@@ -395,15 +409,22 @@ def _tokens_and_truth(cfg, keys, sweeps, degrees=True):
     for f, Z in sweeps:
         rows = []
         tf, tre, tim = [], [], []
+        ffmt = numfmt
+        if numfmt in ("fix3", "pos4", "fix1"):
+            # rounding must not merge or reorder the frequencies of a sweep; otherwise the frequency column keeps full precision
+            fr = [float(fmt_num(fi, numfmt)) for fi in f]
+            d = np.diff(fr)
+            if len(fr) > 1 and not (np.all(d > 0) or np.all(d < 0)):
+                ffmt = "repr"
         for fi, z in zip(f, Z):
             tok = {}
-            tok["f"] = fmt_num(fi, numfmt)
+            tok["f"] = fmt_num(fi, ffmt)
             fv = float(tok["f"])
             if "re" in keys:
                 tok["re"] = fmt_num(sgn["re"] * z.real, numfmt)
                 tok["im"] = fmt_num(sgn["im"] * z.imag, numfmt)
             if "mag" in keys:
-                pf = "repr" if numfmt == "int" else numfmt
+                pf = "repr" if numfmt in ("int", "fix1") else numfmt
                 ph = cmath.phase(z)
                 tok["mag"] = fmt_num(abs(z), numfmt)
                 tok["ph"] = fmt_num(sgn["ph"] * (math.degrees(ph) if degrees else ph), pf)
